@@ -486,6 +486,79 @@ func genSite(rng *core.Rand) string {
 	return line
 }
 
+// genTwo: two file_server handlers (own roots, own hide lists) on one request.
+func genTwo(rng *core.Rand) string {
+	pickWorld := func() *world {
+		w := genWorld(rng)
+		for !(w.rootCfg == "" || safeCfg(w.rootCfg)) {
+			w = genWorld(rng)
+		}
+		return w
+	}
+	wa := pickWorld()
+	wb := pickWorld()
+	wb.cwd = wa.cwd
+	wb.R = rootOf(wb.cwd, wb.rootCfg)
+	if rng.Chance(1, 3) {
+		// the same directory served twice (e.g. an internal and a public view)
+		wb.rootCfg, wb.R = wa.rootCfg, wa.R
+	}
+	// one tree for both: B's entries are added to A's where they fit
+	id := 1000
+	var ps []string
+	for p := range wb.tree {
+		ps = append(ps, p)
+	}
+	sort.Strings(ps)
+	for _, p := range ps {
+		wa.add(p, wb.tree[p].k, &id)
+	}
+	// B's view of the merged tree, for aiming requests
+	wb.tree = wa.tree
+	safe := func(xs []string) []string {
+		var out []string
+		for _, x := range xs {
+			if safeCfg(x) {
+				out = append(out, x)
+			}
+		}
+		return out
+	}
+	var hideA []string
+	if rng.Chance(1, 3) {
+		hideA = safe(genHide(rng, wa))
+	}
+	hideB := safe(genHide(rng, wb))
+	if rng.Chance(2, 3) {
+		hideB = append(hideB, rng.Pick([]string{"secret.txt", "*.txt", ".git", "sub", "secret*", "index.*", "a.txt", "hidden"}))
+	}
+	idx := func() []string {
+		if rng.Chance(1, 2) {
+			return nil
+		}
+		return safe(indexSets[rng.Intn(len(indexSets))])
+	}
+	mode := rng.Pick([]string{"p", "p", "e"})
+	passA := rng.Chance(4, 5)
+	passB := rng.Chance(1, 5)
+	if mode == "e" {
+		passA, passB = rng.Chance(1, 8), false
+	}
+	var p string
+	switch rng.Intn(6) {
+	case 0:
+		p = genPath(rng, wa)
+	case 1:
+		p = rng.Pick([]string{"/secret.txt", "/", "/sub/", "/sub/secret.txt", "/.git/config", "/hidden/h.txt", "/a.txt"})
+	default:
+		p = genPath(rng, wb)
+	}
+	return fmt.Sprintf("two %s %s %s %s %s %s %s %s %s %s %s %s", mode, core.Hex(wa.cwd),
+		core.Hex(wa.rootCfg), showList(hideA), showList(idx()), bits(rng.Chance(1, 3), passA, rng.Chance(3, 4)),
+		core.Hex(wb.rootCfg), showList(hideB), showList(idx()), bits(rng.Chance(1, 2), passB, rng.Chance(3, 4)),
+		core.Hex(p), wa.treeField())
+}
+
 var queries = []string{"x=1", "a=b&c=%zz", "//evil.example/", "?", "q=/../", "%2f%2fevil", "nex=//evil.example", "a?b", "/", "x=%", "a=1/", "", "sor=name&order=desc"}
 
 var tryPool = []tryFile{
@@ -576,6 +649,9 @@ func (prop) Generate(rng *core.Rand, tier string, emit func(string)) {
 	}
 	for i := 0; i < 2500*scale; i++ {
 		emit(genSite(rng))
+	}
+	for i := 0; i < 2500*scale; i++ {
+		emit(genTwo(rng))
 	}
 	for i := 0; i < 1200*scale; i++ {
 		emit(genPair(rng))
